@@ -461,7 +461,10 @@ REQUIRED = (
        "dc_reannotated_inherited_field", "adhoc_hook:compiled:behind-bits", "adhoc_hook:interpreted:behind-bits",
        "nested_body_size:32768-65535", "ctor_int_arg:max", "ctor_arg:out-of-domain", "foreign_datagram",
        "serializer_api:name", "serializer_api:class", "serializer_api:class-list", "golden:old_wire",
-       "golden:frozen_layout", "embedding:nested", "embedding:listed", "offset:0", "offset:23+", "address:domain"])
+       "golden:frozen_layout", "embedding:nested", "embedding:listed", "offset:0", "offset:23+", "address:domain",
+       "model:ezunpack:auth:ok", "model:ezunpack:noauth:ok", "framed:signed:key-with-trailing-bytes:*",
+       "framed:signed:key-canonical:*", "history:key-seen-before-with-other-address-family",
+       "history:key-seen-before-same-family"])
 
 
 
@@ -537,6 +540,8 @@ class Run:
         elif op == "dc":
             out.append("model:dc:" + ("raise" if reply.startswith("raise") else "inst" if reply.startswith("inst") else
                                       "decoded-as-itself-or-base"))
+        elif op == "ezunpack":
+            out.append(f"model:ezunpack:{'noauth' if t[1] == '-' else 'auth'}:{res}")
         elif op == "dcrule":
             out.append("model:dcrule:" + reply)
         elif op == "reg":
@@ -1934,6 +1939,240 @@ class Run:
             for lf in leafs:
                 _sys.modules[__name__].__dict__.pop(lf["cls"].__name__, None)
 
+    # --- section: histories of decodes on ONE long-lived serializer (decoding must be a function of the bytes alone) --------------
+    def decode_histories(self, n: int):
+        """per scenario a fresh serializer with every overlay's packers lives through 3..7 messages whose contents RECUR:
+        public keys from a pool of two appear with addresses of different families, the same addresses with other keys, the
+        same class several times.  Every decode must give the encoded values (and what a serializer without history gives),
+        and results decoded earlier must not change afterwards."""
+        ctx = self.ctx
+        from ipv8.dht.routing import Node
+        pls = [p for p in self.info["payloads"] if any(r == ("name", "node-list") for r in p["refs"])]
+        others = [p for p in self.info["payloads"] if p["kind"] != "old" and p not in pls]
+        if not pls:
+            return
+        for idx in range(1, n + 1):
+            if not self.want("history", idx):
+                continue
+            rng = self.rng_for("history", idx)
+            ser = self.make_serializer()
+            keys = [b"LibNaCLPK:" + rbytes(rng, 64) for _ in range(2)]
+            addrs = [(gen_ipv4(rng), gen_port(rng)), (gen_ipv6(rng), gen_port(rng)), (gen_ipv4(rng), gen_port(rng)),
+                     (gen_ipv6(rng), gen_port(rng))]
+            earlier = []      # (label, decoded object, snapshot of its node fields)
+            trail = []
+            for step in range(rng.choice([3, 4, 5, 7])):
+                p = rng.choice(pls) if rng.random() < 0.8 else rng.choice(others)
+                cls = self.load_class(p["name"])
+                cn = p["name"].rpartition(".")[2]
+                args = []
+                for kind, ref in p["refs"]:
+                    if kind == "name" and ref == "node-list":
+                        args.append([Node(rng.choice(keys), address=rng.choice(addrs)) for _ in range(rng.choice([1, 1, 2, 3]))])
+                    elif kind == "name":
+                        d = self.info["registry"][ref]
+                        v = gen_value(rng, d, None, 1)
+                        args += list(v) if d["kind"] == "bits" else [v]
+                    else:
+                        args = None
+                        break
+                if args is None:
+                    continue
+                obj = cls(*args)
+                nodes_here = [(hx(nd.public_key.key_to_bin())[:24], tuple(nd.address)) for a in args if isinstance(a, list)
+                              for nd in a if hasattr(nd, "public_key")]
+                trail.append(f"{cn}{nodes_here}")
+                fam = {("v6" if ":" in a[0] else "v4") for _, a in nodes_here}
+                rep = {"section": "history", "index": idx, "step": step, "class": p["name"], "history": trail[:]}
+                for kb, a in nodes_here:
+                    seen_fams = {f for (k2, f) in getattr(self, "_hist_seen", set()) if k2 == (idx, kb)}
+                    f = "v6" if ":" in a[0] else "v4"
+                    if seen_fams and f not in seen_fams:
+                        ctx.count("history:key-seen-before-with-other-address-family")
+                    elif seen_fams:
+                        ctx.count("history:key-seen-before-same-family")
+                    self._hist_seen = getattr(self, "_hist_seen", set()) | {((idx, kb), f)}
+                del fam
+                try:
+                    packed = ser.pack_serializable(obj)
+                    pre = rbytes(rng, rng.choice([0, 5, 23]))
+                    got, new = ser.unpack_serializable(cls, pre + packed, len(pre))
+                    ref_got, ref_new = self.make_serializer().unpack_serializable(cls, pre + packed, len(pre))
+                except Exception as e:
+                    ctx.oracle_fail(f"{cn}:history-raises", f"after {trail[:-1]}: encoding/decoding {trail[-1]} raises "
+                                    f"{type(e).__name__}: {e}", rep)
+                    continue
+                names = list(p["names"])
+                for f in names:
+                    a, b, c = getattr(obj, f), getattr(got, f, "<missing>"), getattr(ref_got, f, "<missing>")
+                    if not same_field(a, b):
+                        ctx.oracle_fail(f"{cn}:history-dependent-decode", f"after decoding {trail[:-1]} on the same serializer, "
+                                        f"{cn}.{f} = {self.show_nodes(a)} decodes as {self.show_nodes(b)}"
+                                        + (f" (a serializer without history gives {self.show_nodes(c)})" if same_field(a, c) else ""), rep)
+                    for msg in ([m for x in b for m in self.addr_class_errors({"kind": "node"}, x)]
+                                if isinstance(b, list) and b and hasattr(b[0], "public_key") else [])[:1]:
+                        ctx.oracle_fail(f"{cn}:history-dependent-decode", f"after {trail[:-1]}: {cn}.{f}: {msg}", rep)
+                if new != len(pre) + len(packed) or new != ref_new:
+                    ctx.oracle_fail(f"{cn}:history-dependent-decode", f"after {trail[:-1]}: decoder stopped at {new}, message ends "
+                                    f"at {len(pre) + len(packed)}", rep)
+                try:
+                    if ser.pack_serializable(got) != packed:
+                        ctx.oracle_fail(f"{cn}:history-dependent-decode", f"after {trail[:-1]}: re-encoding the decoded {cn} gives other "
+                                        f"bytes", rep)
+                except Exception as e:
+                    ctx.oracle_fail(f"{cn}:history-dependent-decode", f"re-encoding raises {type(e).__name__}", rep)
+                for label, old, snap in earlier:
+                    if self.node_snapshot(old) != snap:
+                        ctx.oracle_fail(f"{cn}:earlier-result-mutated", f"the {label} decoded earlier changed after decoding "
+                                        f"{trail[-1]}: {snap} -> {self.node_snapshot(old)}", rep)
+                earlier.append((trail[-1], got, self.node_snapshot(got)))
+                try:
+                    atok = self.attr_tokens(p, got, names)
+                except Exception as e:
+                    atok = f"untokenizable:{type(e).__name__}"
+                self.model(f"decode {p['name']} {hx(pre + packed)} {len(pre)}", f"ok {atok} {new}", rep)
+                ctx.case(("history", idx, step), True)
+            ctx.count("history:scenarios")
+
+    @staticmethod
+    def show_nodes(v):
+        if isinstance(v, list) and v and hasattr(v[0], "public_key"):
+            return [(hx(x.public_key.key_to_bin())[:24], tuple(x.address)) for x in v]
+        return short_repr(v, 80)
+
+    @staticmethod
+    def node_snapshot(obj):
+        out = []
+        for k, v in sorted(vars(obj).items()):
+            if isinstance(v, list) and v and hasattr(v[0], "public_key"):
+                out.append((k, [(x.public_key.key_to_bin(), tuple(x.address)) for x in v]))
+            elif isinstance(v, (bytes, int, str, tuple)):
+                out.append((k, v))
+        return out
+
+    # --- section: the datagram frame of an overlay (prefix, message id, [key], payloads, [signature]) -------------------------------
+    def framed(self, n: int):
+        """messages travel inside EZPackOverlay's frame: `_ez_pack` / `_ez_unpack_auth` / `_ez_unpack_noauth` / `lazy_wrapper`.
+        Real overlays (sender, receiver); the key field carries every encoding of the sender's key that the key loader accepts
+        (canonical, with trailing bytes); shipped classes with a message id; signed and unsigned.  Bytes before the signature =
+        golden bytes; the decoded key field, global time and message fields = what was sent."""
+        import asyncio
+        ctx = self.ctx
+        try:
+            from ipv8.community import Community, CommunitySettings
+            from ipv8.keyvault.crypto import default_eccrypto
+            from ipv8.lazy_community import lazy_wrapper
+            from ipv8.messaging.payload_headers import BinMemberAuthenticationPayload, GlobalTimeDistributionPayload
+            from ipv8.peer import Peer
+            from ipv8.peerdiscovery.network import Network
+            from ipv8.test.mocking.endpoint import AutoMockEndpoint
+        except Exception as e:
+            ctx.count(f"framed:skipped:{type(e).__name__}")
+            return
+        pls = [p for p in self.info["payloads"] if p["msg_id"] is not None
+               and not any(r[1] in ("node-list", "flags") for r in p["refs"])]
+
+        async def body():
+            try:
+                Probe = type("FrameProbe", (Community,), {"community_id": b"\x42" * 20})
+
+                def make(level):
+                    ep = AutoMockEndpoint()
+                    ep.open()
+                    return Probe(CommunitySettings(endpoint=ep, network=Network(),
+                                                   my_peer=Peer(default_eccrypto.generate_key(level), ep.wan_address)))
+                pairs = {}
+                for level in ("curve25519", "very-low"):
+                    try:
+                        pairs[level] = (make(level), make(level))
+                    except Exception:
+                        ctx.count("framed:key-level-unavailable:" + level)
+            except Exception as e:
+                ctx.count(f"framed:skipped:{type(e).__name__}")
+                return
+            if not pairs:
+                ctx.count("framed:skipped:no-keys")
+                return
+            for idx in range(1, n + 1):
+                if not self.want("framed", idx):
+                    continue
+                rng = self.rng_for("framed", idx)
+                level = rng.choice(sorted(pairs))
+                sender, receiver = pairs[level]
+                pub = sender.my_peer.public_key
+                canonical = pub.key_to_bin()
+                tail = rng.choice([b"", b"", b"\x00", rbytes(rng, 4), rbytes(rng, 1)])
+                key_bin = canonical + tail
+                if not default_eccrypto.is_valid_public_bin(key_bin):
+                    key_bin, tail = canonical, b""
+                p = rng.choice(pls)
+                obj, names = self.gen_instance(rng, p)
+                if obj is None:
+                    continue
+                cls, cn = type(obj), p["name"].rpartition(".")[2]
+                gt = gen_uint(rng, 8)
+                signed = rng.random() < 0.7
+                ctx.count(f"framed:{'signed' if signed else 'unsigned'}:key-{'canonical' if not tail else 'with-trailing-bytes'}:{level}")
+                rep = {"section": "framed", "index": idx, "class": p["name"], "key_bin": key_bin.hex(), "global_time": gt,
+                       "signed": signed, "fields": {f: short_repr(getattr(obj, f), 80) for f in self.field_names(p, obj, names)}}
+                auth, dist = BinMemberAuthenticationPayload(key_bin), GlobalTimeDistributionPayload(gt)
+                try:
+                    gold_msg = self.golden(p["name"], obj)
+                    packet = sender._ez_pack(sender._prefix, p["msg_id"], [auth, dist, obj] if signed else [dist, obj], signed)
+                except Exception as e:
+                    ctx.oracle_fail("EZPackOverlay._ez_pack:raises", f"packing a {cn} frame raises {type(e).__name__}: {e}", rep)
+                    continue
+                siglen = default_eccrypto.get_signature_length(pub) if signed else 0
+                head = sender._prefix + bytes([p["msg_id"]])
+                gold = head + ((len(key_bin).to_bytes(2, "big") + key_bin) if signed else b"") + gt.to_bytes(8, "big") + (gold_msg or b"")
+                rep["packet"] = packet.hex()[:1200]
+                if gold_msg is not None and packet[:len(packet) - siglen] != gold:
+                    ctx.oracle_fail("EZPackOverlay._ez_pack:doc-bytes", f"the frame of a {cn} is {packet[:60].hex()}…, documented layout "
+                                    f"gives {gold[:60].hex()}…", rep)
+                if signed and not default_eccrypto.is_valid_signature(pub, packet[:-siglen], packet[-siglen:]):
+                    ctx.oracle_fail("EZPackOverlay._ez_pack:signature", "the appended signature does not verify over the frame", rep)
+                # decode: helper and decorator
+                results = []
+                try:
+                    if signed:
+                        r_auth, r_dist, r_msg = receiver._ez_unpack_auth(cls, packet)
+                        results.append(("_ez_unpack_auth", r_auth.public_key_bin, r_dist.global_time, r_msg))
+                        box = []
+                        handler = lazy_wrapper(GlobalTimeDistributionPayload, cls)(lambda self_, peer, d_, m_: box.append((peer, d_, m_)))
+                        handler(receiver, sender.my_peer.address, packet)
+                        if len(box) != 1:
+                            ctx.oracle_fail("lazy_wrapper:delivery", f"a signed {cn} frame was delivered {len(box)} times", rep)
+                        else:
+                            results.append(("lazy_wrapper", None, box[0][1].global_time, box[0][2]))
+                    else:
+                        r_dist, r_msg = receiver._ez_unpack_noauth(cls, packet)
+                        results.append(("_ez_unpack_noauth", None, r_dist.global_time, r_msg))
+                except Exception as e:
+                    ctx.oracle_fail(f"EZPackOverlay.{'_ez_unpack_auth' if signed else '_ez_unpack_noauth'}:raises",
+                                    f"decoding a {cn} frame (key field of {len(key_bin)} bytes, canonical {len(canonical)}) raises "
+                                    f"{type(e).__name__}: {e}", rep)
+                    self.model(f"ezunpack {siglen if signed else '-'} {hx(packet)} ipv8.messaging.payload_headers.GlobalTimeDistributionPayload "
+                               f"{p['name']}", "err", rep)
+                    continue
+                for how, k, g, m in results:
+                    if k is not None and k != key_bin:
+                        ctx.oracle_fail(f"EZPackOverlay.{how}:field-public_key_bin", f"the key field {key_bin.hex()[:40]}… ({len(key_bin)} "
+                                        f"bytes) decodes as {bytes(k).hex()[:40]}… ({len(k)} bytes)", rep)
+                    if g != gt:
+                        ctx.oracle_fail(f"EZPackOverlay.{how}:field-global_time", f"global time {gt} decodes as {g} in a {cn} frame", rep)
+                    self.compare_fields(cn, p, obj, m, names, rep, "framed:" + how)
+                try:
+                    atok = self.attr_tokens(p, results[0][3], names)
+                except Exception as e:
+                    atok = f"untokenizable:{type(e).__name__}"
+                self.model(f"ezunpack {siglen if signed else '-'} {hx(packet)} ipv8.messaging.payload_headers.GlobalTimeDistributionPayload "
+                           f"{p['name']}", f"ok {hx(bytes(results[0][1])) if signed else '-'} L(R(n{results[0][2]}),{atok})", rep)
+                ctx.case(("framed", idx), True)
+            for a, b in pairs.values():
+                await a.unload()
+                await b.unload()
+        asyncio.run(body())
+
     # --- section: several overlays in one process, each with its own registrations -------------------------------------------
     ISO_FRESH = ["digest", "blob", "seq", "tag"]
     ISO_OVERRIDE = ["varlenH", "H", "20s", "varlenI", "Q", "varlenHx20"]
@@ -2410,10 +2649,10 @@ def SCALE(ctx):
     return {"packers": ctx.scale(120, 800), "classes": ctx.scale(80, 600), "adhoc": ctx.scale(1500, 15000),
             "cells": ctx.scale(200, 2000), "ulists": ctx.scale(400, 4000), "trunc": ctx.scale(5000, 50000),
             "sweep": ctx.scale(12, 64), "dataclass": ctx.scale(300, 3000),
-            "overlays": ctx.scale(80, 600)}
+            "overlays": ctx.scale(80, 600), "history": ctx.scale(150, 1500), "framed": ctx.scale(300, 3000)}
 
 
-SEARCH_SCALE = {"packers": 300, "classes": 200, "adhoc": 3000, "cells": 300, "ulists": 500, "trunc": 0, "sweep": 8, "dataclass": 600, "overlays": 150}
+SEARCH_SCALE = {"packers": 300, "classes": 200, "adhoc": 3000, "cells": 300, "ulists": 500, "trunc": 0, "sweep": 8, "dataclass": 600, "overlays": 150, "history": 300, "framed": 400}
 
 
 def sections(r: Run, ctx: Ctx, scale):
@@ -2430,6 +2669,8 @@ def sections(r: Run, ctx: Ctx, scale):
     r.adhoc(scale["adhoc"])
     r.dataclass_histories(scale["dataclass"])
     r.overlay_isolation(scale["overlays"])
+    r.decode_histories(scale["history"])
+    r.framed(scale["framed"])
     r.cells(scale["cells"])
     r.ulists(scale["ulists"])
     r.truncated(scale["trunc"])
@@ -2505,6 +2746,10 @@ def replay(ctx: Ctx, info, spec):
             r.dataclass_histories(scale["dataclass"])
         elif section == "overlays":
             r.overlay_isolation(scale["overlays"])
+        elif section == "history":
+            r.decode_histories(scale["history"])
+        elif section == "framed":
+            r.framed(scale["framed"])
         if ctx.failures:
             break
     ctx.searching = False
